@@ -246,6 +246,23 @@ func c20Eval(c c20Case) (viol string, tmpls []string) {
 					return
 				}
 			}
+			// the same with the exported rule list in which the four rules that have a variant
+			// without suggestions are replaced by it
+			if d2, perr := parser.ParseQuery(&ast.Source{Name: c.QName, Input: c.Query}); perr == nil {
+				rs := append([]validator.Rule{}, allRules...)
+				for i := range rs {
+					for _, w := range withoutSuggestions {
+						if rs[i].Name == w.std.Name {
+							rs[i] = w.without
+						}
+					}
+				}
+				for _, e := range validator.Validate(s, d2, rs...) {
+					if note(checkErrorShape(e, errExpect{entry: "Validate(without suggestions)/" + e.Rule, file: c.QName, validation: true})) {
+						return
+					}
+				}
+			}
 			if c.QName == "" {
 				_, errs := gqlparser.LoadQuery(s, c.Query)
 				for _, e := range errs {
@@ -307,7 +324,7 @@ func c20Eval(c c20Case) (viol string, tmpls []string) {
 func TestC20(t *testing.T) {
 	r := kit.New(t, "C20")
 	defer r.Finish()
-	r.SetRule("error-biased use of every entry point: lexer and both parsers (with and without limits, named and unnamed sources) on lexical soups, truncated and mutated documents; LoadSchema on G7 single-fault schemas split over named sources; Validate and LoadQuery on G9-faulty, misspelt and type-blind documents from named and unnamed sources; VariableValues on G10 defects; ast.Path values of length <= 6 over names and indices (all of length <= 3 over a small alphabet, random beyond). " +
+	r.SetRule("error-biased use of every entry point: lexer and both parsers (with and without limits, named and unnamed sources) on lexical soups, truncated and mutated documents; LoadSchema on G7 single-fault schemas split over named sources; Validate (default rules and the rule list with the four without-suggestions variants) and LoadQuery on G9-faulty, misspelt and type-blind documents from named and unnamed sources; VariableValues on G10 defects; ast.Path values of length <= 6 over names and indices (all of length <= 3 over a small alphabet, random beyond). " +
 		"oracle: non-empty message; validation errors have rule and >= 1 location; extensions.file == the source name; JSON encoding is an object with string message, locations of positive integer line/column (both present), path of strings and non-negative integers; paths round-trip through JSON. " +
 		"non-trivial = an error was produced; distinct by message template (quoted names and numbers replaced) per entry point")
 	replay := func(raw json.RawMessage) string {
